@@ -8,6 +8,7 @@ from typing import TYPE_CHECKING, overload
 import ibis.expr.operations
 import ibis.expr.types
 import narwhals as nw
+import pyarrow as pa
 
 import tea_tasting.utils
 
@@ -411,6 +412,9 @@ def _read_aggr_narwhals(
     var_cols: Sequence[str],
     cov_cols: Sequence[tuple[str, str]],
 ) -> list[dict[str, int | float]]:
+    if isinstance(data, pa.Table):
+        # Window functions over a table with several chunks can misalign rows.
+        data = data.combine_chunks()
     data = nw.from_native(data)
     if not isinstance(data, nw.LazyFrame):
         data = data.lazy()
